@@ -1,15 +1,41 @@
 NOTE = ("trusted base: name/MRO resolution of the project model (unresolved calls are listed, never judged); "
-        "may-raise = explicit raise reachable through resolved repo calls + the forward kernel call; NumPy view/copy table")
+        "may-raise = explicit raise reachable through resolved repo calls + the forward kernel call; NumPy view/copy table; "
+        "rules are structural necessary conditions, exhaustive over the enumerated syntactic universe (paths / sites / classes)")
+NOT_DECIDED = " Not decided (left to other technique families): "
 CHECKS = [
+ {"property_id": "C01", "technique": "static: CFG dominance / graph-cut rules on the graph walk and the accumulation loop; signature binding of all _op call sites",
+  "text": "Decides the structure that makes backward() a reverse-mode sweep: post-order + appendleft + forward iteration (reverse topological order), seed-before-walk, "
+          "accumulate-never-overwrite, every contribution post-processed (broadcast reduction, where-mask) and stored, every concrete Operation records exactly its leading "
+          "tensor parameters as variables and every _op/_in_place_op call site binds against that signature." + NOT_DECIDED + "numeric value of any derivative; order-independence of floating point sums.",
+  "note": NOTE},
+ {"property_id": "C06", "technique": "static: dominance (pull-before-drop), paired-store analysis, reaching-definition layout provenance",
+  "text": "Decides: a view pulls its gradient before clear_graph drops its creator; every nulling of _grad is paired with nulling _view_grad; Tensor.grad replays the view op untracked and "
+          "validates its cache by base identity; the first contribution stored in var._grad must be allocated with var.data's layout (fails today: known finding D5)." + NOT_DECIDED +
+          "value equality of v.grad with the replayed chain.", "note": NOTE},
+ {"property_id": "C07", "technique": "static: who-may-write / typestate of back-references (weak vs strong), must-reach graph cuts on clear_graph and backward",
+  "text": "Decides: everything added to Tensor._ops is a weakref and _view_children is always a WeakRefIterable; no op holds its own output strongly; finalizer arguments are weak containers; "
+          "clear_graph empties both sets on every call, drops the creator before recursing over all of its variables; backward reaches clear_graph on every normal exit; gradients are nulled at the "
+          "three documented sites." + NOT_DECIDED + "actual CPython refcount behaviour; bit-identity of repeated steps.", "note": NOTE},
  {"property_id": "C08", "technique": "static: CFG path analysis with exceptional edges (lock->release on all paths), who-may-write, typestate of the lock counter",
   "text": "Structural necessary conditions, exhaustive over the paths of Tensor._op under every TRACK_GRAPH x MEM_GUARD specialisation and over all lock sites: "
           "every lock taken is released or handed to the op's finalizer on all normal and exceptional exits; every locked array is registered; bases are yielded "
-          "before views; the counter is only incremented by the lock function and the flag restored only by the last holder. Does not decide interleavings of "
+          "before views; the counter is only incremented by the lock function and the flag restored only by the last holder." + NOT_DECIDED + "interleavings of "
           "finalizers and reference drops (schedule quantifier).", "note": NOTE},
+ {"property_id": "C09", "technique": "static: guard dominance + monotonicity of the staleness marker via who-may-write enumeration",
+  "text": "Decides: the InvalidBackprop guard dominates every backward_var call; clear_graph empties the consumer set of every upstream tensor; the marker read by the guard (Tensor._ops) "
+          "must only be refilled on fresh tensors (fails today: known finding D4)." + NOT_DECIDED + "exact-gradient-or-raise over all histories.", "note": NOTE},
+ {"property_id": "C10", "technique": "static: mode-specialised CFG reachability of the dtype gate, dominance of constant tests over gradient stores, forwarding of constant= at all wrapper sites",
+  "text": "Decides: Tensor.__init__ raises before storing the flag for non-real dtypes / constant=False on integers; default is not-is_float; explicit flag kept; every value store to a tensor's "
+          "_grad lies on the non-constant edge of a .constant test (Tensor.copy fails: known finding D9); _op only infers constant when it is None; backward on a constant only clears; every wrapper "
+          "forwards constant=." + NOT_DECIDED + "equality of gradients with the constants-replaced-by-arrays program.", "note": NOTE},
  {"property_id": "C13", "technique": "static: CFG path analysis with exceptional edges (no irreversible write before the last may-raise call), handler/rollback dominance",
   "text": "Structural necessary conditions: in Tensor._op no input-tensor state is written before a call that may still raise; the forward call and the in-place "
           "kernel are guarded by handlers that release/restore and re-raise; public tensors are mirrored only after the kernel succeeded; the shape setter validates "
-          "before it duplicates the graph. Does not decide value-level equivalence with the program minus the failing statement.", "note": NOTE},
+          "before it duplicates the graph." + NOT_DECIDED + "value-level equivalence with the program minus the failing statement.", "note": NOTE},
+ {"property_id": "C14", "technique": "static: closed who-may-write set for Tensor._grad, dominance of dtype/shape checks over each store, shape-provenance lattice",
+  "text": "Decides: Tensor._grad is written only by the nine listed functions; the seed has the tensor's dtype and is stored only after the shape test is false, a mismatch raises before "
+          "any store; every value store discharges a dtype obligation and a shape obligation; a provable shape mismatch is a violation (GRUnit: known finding D2)." + NOT_DECIDED +
+          "the three seeding identities as value equalities.", "note": NOTE},
 ]
 _BUILT = {c["property_id"] for c in CHECKS}
 NOT_APPLICABLE = [
